@@ -144,12 +144,20 @@ Lemma featureinfo_refused_free ly o q x y z e :
   fst (featureinfo ly o q x y z) = Err e -> snd (featureinfo ly o q x y z) = [].
 Proof.
   unfold featureinfo. destruct (request_tile_coord ly false o x y z) as [[[x' y'] l]|]; [|reflexivity].
+  destruct (negb (dimensions_ok ly (rdims q))); [reflexivity|].
   destruct (negb (lqueryable ly)); [reflexivity|]. cbn [fst]. discriminate.
 Qed.
 
 Lemma featureinfo_outside ly o q x y z :
   ~ in_matrix ly false x y z -> featureinfo ly o q x y z = (Err OutOfRange, []).
 Proof. intros H. unfold featureinfo. rewrite (request_none _ _ o _ _ _ H). reflexivity. Qed.
+
+Lemma featureinfo_invalid_dimension ly o q x y z :
+  dimensions_ok ly (rdims q) = false -> exists e, featureinfo ly o q x y z = (Err e, []).
+Proof.
+  intros H. unfold featureinfo. destruct (request_tile_coord ly false o x y z) as [[[x' y'] l]|]; [|eauto].
+  rewrite H. cbn [negb]. eauto.
+Qed.
 
 (* ---- the shape of serve_tile: an immediate refusal, or TileLayer.render, or the feature info path *)
 Lemma serve_tile_shape ly cached q :
@@ -205,13 +213,14 @@ Proof.
 Qed.
 
 Lemma serve_tile_invalid_dimension ly cached q :
-  is_fi (rsvc q) = false -> dimensions_ok ly (dims_of q) = false -> exists e, serve_tile ly cached q = (Err e, []).
+  dimensions_ok ly (dims_of q) = false -> exists e, serve_tile ly cached q = (Err e, []).
 Proof.
-  intros Hfi Hd.
-  destruct (serve_tile_shape ly cached q) as [He|[(x & y & z & f' & _ & _ & _ & _ & _ & ->)|(x & y & z & _ & _ & _ & Hfi' & _)]].
+  intros Hd.
+  destruct (serve_tile_shape ly cached q) as [He|[(x & y & z & f' & _ & _ & _ & _ & _ & ->)|(x & y & z & _ & _ & _ & Hfi' & ->)]].
   - exact He.
   - apply render_invalid_dimension. exact Hd.
-  - congruence.
+  - apply featureinfo_invalid_dimension. unfold dims_of in Hd.
+    destruct (rsvc q); cbn [is_fi is_wmts] in *; try discriminate; exact Hd.
 Qed.
 
 (* a request whose other parameters are in order reaches TileLayer.render *)
@@ -303,6 +312,7 @@ Lemma featureinfo_inside ly o q x y z e :
   In e (snd (featureinfo ly o q x y z)) -> effect_inside ly e.
 Proof.
   unfold featureinfo. destruct (request_tile_coord ly false o x y z) as [[[x' y'] l]|] eqn:E; [|intros []].
+  destruct (negb (dimensions_ok ly (rdims q))); [intros []|].
   destruct (negb (lqueryable ly)); [intros []|]. cbn [snd]. intros [<-|[]].
   pose proof (request_some_inv _ _ _ _ _ _ _ E) as Him.
   destruct (request_some ly false o x y z Him) as (c2 & E2 & Hv).
@@ -509,11 +519,17 @@ Example ex_clip :
   effective_query ex_layer (mkMap (-640, -640, 640, 640) 128 128 1 false) = Some (mkMap (0, 0, 640, 640) 64 64 1 false).
 Proof. vm_compute. reflexivity. Qed.
 
-(* WMTS GetFeatureInfo does not validate FORMAT or dimension values: an upstream request is made *)
+(* WMTS GetFeatureInfo does not compare FORMAT with the layer format (behaviour pinned by the test-suite of mapproxy):
+   an upstream request is made.  Dimension values are validated like GetTile does. *)
 Lemma featureinfo_format_unchecked_witness :
-  exists ly cached q f, is_fi (rsvc q) = true /\ rfmt q = Some f /\ f <> lfmt ly /\ dimensions_ok ly (rdims q) = false /\
+  exists ly cached q f, is_fi (rsvc q) = true /\ rfmt q = Some f /\ f <> lfmt ly /\
     fst (serve_tile ly cached q) = Ok /\ snd (serve_tile ly cached q) <> [].
 Proof.
-  exists ex_layer, [], (mkReq WmtsKvpFI (Some 0) (Some 0) (Some 0) (Some 2) None [(1, 9)] true true true 3 4), 2.
+  exists ex_layer, [], (mkReq WmtsKvpFI (Some 0) (Some 0) (Some 0) (Some 2) None [(1, 3)] true true true 3 4), 2.
   vm_compute. repeat split; try reflexivity; discriminate.
 Qed.
+Example ex_featureinfo_dimension :
+  serve_tile ex_layer [] (mkReq WmtsKvpFI (Some 0) (Some 0) (Some 0) (Some 1) None [(1, 9)] true true true 3 4) = (Err InvalidDimension, []) /\
+  serve_tile ex_layer [] (mkReq WmtsKvpFI (Some 0) (Some 0) (Some 0) (Some 1) None [(1, 3)] true true true 3 4) =
+    (Ok, [EInfo (0, 0, 2560, 2560) 3 4]).
+Proof. vm_compute. split; reflexivity. Qed.
